@@ -77,7 +77,8 @@ pub fn run(ctx: &Ctx) -> Report {
     let types = param_types();
     let r = par_cases(ctx, "C08", "exec", n, |rng, i, rep| {
         let counts: &[usize] = &[0, 1, 7, 8, 9, 16, 17, 255, 256, 300];
-        let np = if ctx.miri { 3 } else if rng.chance(1, 8) { *rng.pick(counts) } else if rng.chance(1, 3) { *rng.pick(&[0usize, 1, 7, 8, 9, 16, 17]) } else { rng.range(1, 12) as usize };
+        // (one case per run has as many parameters as the protocol's 16-bit count can say)
+        let np = if !ctx.miri && i == 5 { 65_535 } else if ctx.miri { 3 } else if rng.chance(1, 8) { *rng.pick(counts) } else if rng.chance(1, 3) { *rng.pick(&[0usize, 1, 7, 8, 9, 16, 17]) } else { rng.range(1, 12) as usize };
         let null_mode = rng.below(6);
         let single = rng.usize(np.max(1));
         // systematic sweep over (type, unsigned) by case index, random for the rest
